@@ -111,3 +111,9 @@ Theorem C09_found_index_is_the_source : forall {T} (keq : T -> T -> bool) (st : 
   PCD.Gen.SrcTables.found_index keq st index = found_index keq st index.
 Proof. intros. apply SrcTablesTie.found_index_tie. Qed.
 Print Assumptions C09_found_index_is_the_source.
+
+(* and ToArgs.additional_args - every index no instruction has mentioned, in table order, through found_index - run to the end *)
+Theorem C09_additional_args_is_the_source : forall {T} (keq : T -> T -> bool) (st : toargs T),
+  PCD.Gen.SrcTables.additional_args keq st = additional_args keq st.
+Proof. intros. apply SrcTablesTie.additional_args_tie. Qed.
+Print Assumptions C09_additional_args_is_the_source.
